@@ -85,6 +85,7 @@ inductive Cmd where
   | note (letter acc : Nat) (len : Option Nat) (dots : Nat)   -- A..G, P; acc = 35 (#,+), 45 (-), 0
   | fill (f : Fill)                 -- MN, ML, MS
   | fg (b : Bool)                   -- MF, MB
+  | vol (k : Int)                   -- V (Tandy/PCjr sound only)
   deriving DecidableEq, Repr
 
 /-- optional accidental after a note letter:
@@ -133,6 +134,7 @@ def parseLetter (env : Env) (c : Nat) (r : Bytes) : R (Cmd × Bytes) :=
       else if m == 66 then .ok (.fg false, r1)
       else .error E.ifc
   -- V is accepted only with Tandy/PCjr sound; everything else is an error
+  else if c == 86 && env.volumeCmd then (parseNumber env none r).map (fun (k, r1) => (.vol k, r1))
   else .error E.ifc
 
 /-- read one command; `none` at the end of the string.  One (and only one) `;` before a command
@@ -188,6 +190,10 @@ def apply (ps : PlayState) : Cmd → R (PlayState × List Ev)
       | some s => .ok (ps, [mkEv ps (some (ps.octave * 12 + s)) len d ps.fill])
   | .fill f => .ok ({ ps with fill := f }, [])
   | .fg b => .ok ({ ps with foreground := b }, [])
+  | .vol k =>
+    -- error.range_check(-1, 15, vol); -1 means the default 15
+    if -1 ≤ k ∧ k ≤ 15 then .ok ({ ps with volume := if k = -1 then 15 else k.toNat }, [])
+    else .error E.ifc
 
 /-- limit on the nesting of X substrings (0 = none: the unrepaired code) -/
 structure Limits where
